@@ -2,7 +2,10 @@
 //!
 //! The exported `extern "C"` functions of `c2pa_c_ffi` are called in-process, in random
 //! sequences, with arguments drawn per pointer parameter from {valid handle of the right
-//! type, wrong type, freed, NULL, foreign pointer}.
+//! type, wrong type, freed, NULL, foreign pointer}. The parameter of a type-specific release
+//! function (`c2pa_reader_free`, `c2pa_string_free`, …) is such a parameter too: a live library
+//! pointer of another type must be refused with an error and stay live; only the `void*`
+//! functions `c2pa_free` / `cimpl_free` release anything.
 //!
 //! Request line (see lean/C2paModel/Model/C31.lean), one per sequence:
 //!   C31 seq ops=<fn>;<arg>,…;<inner>;<alloc>,…|…   ->   <ind>:<lasterr>:<new>:<freed> … | UB
@@ -171,8 +174,11 @@ enum Role {
     H(&'static str),
     /// stream handle that may be NULL by documentation
     HOpt(&'static str),
-    /// any library pointer, released by the call (NULL allowed)
+    /// any library pointer (`void*`), released by the call (NULL allowed)
     Free,
+    /// pointer declared with a type (`C2paReader*`, `char*`, `unsigned char*`…), released by the
+    /// call (NULL allowed); a library pointer of another type is a wrong-type handle
+    FreeT(&'static str),
     /// string array returned by *_supported_mime_types, released by the call (NULL allowed)
     OwnedArr,
     /// required NUL-terminated string
@@ -224,6 +230,7 @@ const SPECS: &[FnSpec] = &[
     FnSpec { name: "c2pa_version", roles: &[], ret: Ret::New("cstring"), w: 1 },
     FnSpec { name: "c2pa_error", roles: &[], ret: Ret::New("cstring"), w: 2 },
     FnSpec { name: "c2pa_error_set_last", roles: &[Str("Other: x")], ret: Ret::Int, w: 1 },
+    FnSpec { name: "c2pa_load_settings", roles: &[Str("{\"verify\":{\"verify_after_sign\":false}}"), Str("json")], ret: Ret::Int, w: 1 },
     FnSpec { name: "c2pa_settings_new", roles: &[], ret: Ret::New("settings"), w: 3 },
     FnSpec { name: "c2pa_settings_update_from_string", roles: &[H("settings"), Str("{\"verify\":{\"verify_after_sign\":false}}"), Str("json")], ret: Ret::Int, w: 3 },
     FnSpec { name: "c2pa_settings_set_value", roles: &[H("settings"), Str("verify.verify_after_sign"), Str("false")], ret: Ret::Int, w: 3 },
@@ -236,18 +243,19 @@ const SPECS: &[FnSpec] = &[
     FnSpec { name: "c2pa_context_builder_build", roles: &[H("contextBuilder")], ret: Ret::New("context"), w: 4 },
     FnSpec { name: "c2pa_context_new", roles: &[], ret: Ret::New("context"), w: 3 },
     FnSpec { name: "c2pa_context_cancel", roles: &[H("context")], ret: Ret::Int, w: 1 },
-    FnSpec { name: "c2pa_release_string", roles: &[Free], ret: Ret::Unit, w: 2 },
+    FnSpec { name: "c2pa_release_string", roles: &[FreeT("cstring")], ret: Ret::Unit, w: 2 },
     FnSpec { name: "c2pa_free", roles: &[Free], ret: Ret::Int, w: 14 },
-    FnSpec { name: "c2pa_string_free", roles: &[Free], ret: Ret::Unit, w: 2 },
+    FnSpec { name: "c2pa_string_free", roles: &[FreeT("cstring")], ret: Ret::Unit, w: 2 },
     FnSpec { name: "c2pa_free_string_array", roles: &[OwnedArr, Scalar], ret: Ret::Unit, w: 3 },
     FnSpec { name: "c2pa_reader_new", roles: &[], ret: Ret::New("reader"), w: 4 },
     FnSpec { name: "c2pa_reader_from_context", roles: &[H("context")], ret: Ret::New("reader"), w: 3 },
+    FnSpec { name: "c2pa_reader_from_file", roles: &[Str("@signedpath")], ret: Ret::New("reader"), w: 1 },
     FnSpec { name: "c2pa_reader_from_stream", roles: &[Str(JPEG), H("stream")], ret: Ret::New("reader"), w: 3 },
     FnSpec { name: "c2pa_reader_with_stream", roles: &[H("reader"), Str(JPEG), H("stream")], ret: Ret::New("reader"), w: 5 },
     FnSpec { name: "c2pa_reader_with_manifest_data_and_stream", roles: &[H("reader"), Str(JPEG), H("stream"), Bytes, Scalar], ret: Ret::New("reader"), w: 2 },
     FnSpec { name: "c2pa_reader_with_fragment", roles: &[H("reader"), Str("video/mp4"), H("stream"), H("stream")], ret: Ret::New("reader"), w: 2 },
     FnSpec { name: "c2pa_reader_from_manifest_data_and_stream", roles: &[Str(JPEG), H("stream"), Bytes, Scalar], ret: Ret::New("reader"), w: 2 },
-    FnSpec { name: "c2pa_reader_free", roles: &[Free], ret: Ret::Unit, w: 2 },
+    FnSpec { name: "c2pa_reader_free", roles: &[FreeT("reader")], ret: Ret::Unit, w: 2 },
     FnSpec { name: "c2pa_reader_json", roles: &[H("reader")], ret: Ret::New("cstring"), w: 4 },
     FnSpec { name: "c2pa_reader_detailed_json", roles: &[H("reader")], ret: Ret::New("cstring"), w: 1 },
     FnSpec { name: "c2pa_reader_crjson", roles: &[H("reader")], ret: Ret::New("cstring"), w: 1 },
@@ -259,7 +267,7 @@ const SPECS: &[FnSpec] = &[
     FnSpec { name: "c2pa_builder_from_context", roles: &[H("context")], ret: Ret::New("builder"), w: 3 },
     FnSpec { name: "c2pa_builder_from_archive", roles: &[H("stream")], ret: Ret::New("builder"), w: 2 },
     FnSpec { name: "c2pa_builder_supported_mime_types", roles: &[Out], ret: Ret::StrArray, w: 2 },
-    FnSpec { name: "c2pa_builder_free", roles: &[Free], ret: Ret::Unit, w: 2 },
+    FnSpec { name: "c2pa_builder_free", roles: &[FreeT("builder")], ret: Ret::Unit, w: 2 },
     FnSpec { name: "c2pa_builder_with_definition", roles: &[H("builder"), Str("{\"title\":\"t\"}")], ret: Ret::New("builder"), w: 3 },
     FnSpec { name: "c2pa_builder_with_archive", roles: &[H("builder"), H("stream")], ret: Ret::New("builder"), w: 2 },
     FnSpec { name: "c2pa_builder_set_intent", roles: &[H("builder"), Scalar, Scalar], ret: Ret::Int, w: 2 },
@@ -274,7 +282,7 @@ const SPECS: &[FnSpec] = &[
     FnSpec { name: "c2pa_builder_write_ingredient_archive", roles: &[H("builder"), Str("i"), H("stream")], ret: Ret::Int, w: 1 },
     FnSpec { name: "c2pa_builder_sign", roles: &[H("builder"), Str(JPEG), H("stream"), H("stream"), H("signer"), Out], ret: Ret::OutBytes(5), w: 4 },
     FnSpec { name: "c2pa_builder_sign_context", roles: &[H("builder"), Str(JPEG), H("stream"), H("stream"), Out], ret: Ret::OutBytes(4), w: 2 },
-    FnSpec { name: "c2pa_manifest_bytes_free", roles: &[Free], ret: Ret::Unit, w: 2 },
+    FnSpec { name: "c2pa_manifest_bytes_free", roles: &[FreeT("bytes")], ret: Ret::Unit, w: 2 },
     FnSpec { name: "c2pa_builder_data_hashed_placeholder", roles: &[H("builder"), Scalar, Str(JPEG), Out], ret: Ret::OutBytes(3), w: 2 },
     FnSpec { name: "c2pa_builder_sign_data_hashed_embeddable", roles: &[H("builder"), H("signer"), Str("{\"exclusions\":[{\"start\":2,\"length\":100}],\"name\":\"jumbf manifest\",\"alg\":\"sha256\",\"hash\":\"gWZNEOMHQNiULfA/tO5HD2awOwYhA3tnfUPApIr9csk=\",\"pad\":\"AAAAAAAAAAAAAAAAAAAAAAAAAAAAAAAAAAAAAAAAAAAAAAAAAAAAAAAAAAAAAAAAAAAAAAAAAAAAAAAAAAAA\"}"), Str(JPEG), HOpt("stream"), Out], ret: Ret::OutBytes(5), w: 4 },
     FnSpec { name: "c2pa_builder_needs_placeholder", roles: &[H("builder"), Str(JPEG)], ret: Ret::Int, w: 1 },
@@ -291,19 +299,19 @@ const SPECS: &[FnSpec] = &[
     FnSpec { name: "c2pa_signer_from_info", roles: &[InfoRef], ret: Ret::New("signer"), w: 5 },
     FnSpec { name: "c2pa_signer_from_settings", roles: &[], ret: Ret::New("signer"), w: 1 },
     FnSpec { name: "c2pa_signer_reserve_size", roles: &[H("signer")], ret: Ret::Int, w: 2 },
-    FnSpec { name: "c2pa_signer_free", roles: &[Free], ret: Ret::Unit, w: 2 },
+    FnSpec { name: "c2pa_signer_free", roles: &[FreeT("signer")], ret: Ret::Unit, w: 2 },
     FnSpec { name: "c2pa_ed25519_sign", roles: &[Bytes, Scalar, Str("@ed25519key")], ret: Ret::New("bytes"), w: 2 },
-    FnSpec { name: "c2pa_signature_free", roles: &[Free], ret: Ret::Unit, w: 2 },
+    FnSpec { name: "c2pa_signature_free", roles: &[FreeT("bytes")], ret: Ret::Unit, w: 2 },
     FnSpec { name: "c2pa_create_stream", roles: &[Opaque, Cb, Cb, Cb, Cb], ret: Ret::New("stream"), w: 7 },
-    FnSpec { name: "c2pa_release_stream", roles: &[Free], ret: Ret::Unit, w: 2 },
+    FnSpec { name: "c2pa_release_stream", roles: &[FreeT("stream")], ret: Ret::Unit, w: 2 },
     FnSpec { name: "cimpl_free", roles: &[Free], ret: Ret::Int, w: 3 },
 ];
 
 /// Exported functions the driver deliberately does not call (with the reason).
-const NOT_DRIVEN: &[(&str, &str)] = &[
-    ("c2pa_load_settings", "mutates thread-local settings of the harness process; no pointer parameter besides two strings"),
-    ("c2pa_reader_from_file", "compiled only with the crate feature file_io, which the harness build does not enable"),
-];
+const NOT_DRIVEN: &[(&str, &str)] = &[];
+
+/// Calls that always run on a freshly spawned thread (with the reason).
+const ALWAYS_ON_THREAD: &[(&str, &str)] = &[("c2pa_load_settings", "sets thread-local settings; they must die with the thread, not leak into later calls")];
 
 // ------------------------------------------------------------------------------------------
 // caller-side memory: strings, stream contexts, callbacks
@@ -321,6 +329,7 @@ struct Consts {
     excl: [u64; 2],
     arr: [*const c_char; 2],
     bad: CString,
+    signed_path: CString,
 }
 
 fn consts() -> Consts {
@@ -356,6 +365,7 @@ fn consts() -> Consts {
         excl: [2, 100],
         arr: [b"c2pa.actions\0".as_ptr() as *const c_char, std::ptr::null()],
         bad: CString::new("{not json").unwrap(),
+        signed_path: CString::new(fx.join("C.jpg").to_str().expect("fixture path").to_string()).unwrap(),
     }
 }
 
@@ -439,6 +449,7 @@ unsafe fn dispatch(name: &str, a: &[usize], len0: bool, env: &CallEnv) -> Raw {
         "c2pa_version" => rp!(c2pa_version()),
         "c2pa_error" => rp!(c2pa_error()),
         "c2pa_error_set_last" => ri!(c2pa_error_set_last(p!(0, *const c_char))),
+        "c2pa_load_settings" => ri!(c2pa_load_settings(p!(0, *const c_char), p!(1, *const c_char))),
         "c2pa_settings_new" => rp!(c2pa_settings_new()),
         "c2pa_settings_update_from_string" => ri!(c2pa_settings_update_from_string(p!(0, *mut _), p!(1, *const c_char), p!(2, *const c_char))),
         "c2pa_settings_set_value" => ri!(c2pa_settings_set_value(p!(0, *mut _), p!(1, *const c_char), p!(2, *const c_char))),
@@ -457,6 +468,7 @@ unsafe fn dispatch(name: &str, a: &[usize], len0: bool, env: &CallEnv) -> Raw {
         "c2pa_free_string_array" => c2pa_free_string_array(p!(0, *const *const c_char), a[1]),
         "c2pa_reader_new" => rp!(c2pa_reader_new()),
         "c2pa_reader_from_context" => rp!(c2pa_reader_from_context(p!(0, *mut _))),
+        "c2pa_reader_from_file" => rp!(c2pa_reader_from_file(p!(0, *const c_char))),
         "c2pa_reader_from_stream" => rp!(c2pa_reader_from_stream(p!(0, *const c_char), p!(1, *mut _))),
         "c2pa_reader_with_stream" => rp!(c2pa_reader_with_stream(p!(0, *mut _), p!(1, *const c_char), p!(2, *mut _))),
         "c2pa_reader_with_manifest_data_and_stream" => rp!(c2pa_reader_with_manifest_data_and_stream(p!(0, *mut _), p!(1, *const c_char), p!(2, *mut _), p!(3, *const u8), blen)),
@@ -828,6 +840,36 @@ impl<'a> Seq<'a> {
         }
     }
 
+    /// argument of a type-specific release function declared for `ty`
+    fn pick_free_typed(&mut self, ty: &'static str, want: Option<Class>) -> (Class, usize) {
+        let c = want.unwrap_or_else(|| match self.rng.below(100) {
+            0..=57 => Class::Valid,
+            58..=71 => Class::WrongType,
+            72..=86 => Class::Freed,
+            87..=91 => Class::Null,
+            _ => Class::Foreign,
+        });
+        match c {
+            Class::Valid => {
+                let v = self.live_of(ty);
+                if v.is_empty() {
+                    (Class::Null, 0)
+                } else {
+                    (Class::Valid, *self.rng.pick(&v))
+                }
+            }
+            Class::WrongType => {
+                let v: Vec<usize> = self.live.iter().filter(|(_, t)| **t != ty).map(|(a, _)| *a).collect();
+                if v.is_empty() {
+                    (Class::Foreign, self.foreign_ptr())
+                } else {
+                    (Class::WrongType, *self.rng.pick(&v))
+                }
+            }
+            other => self.pick_free(Some(other)),
+        }
+    }
+
     fn pick_array(&mut self, want: Option<Class>) -> (Class, usize) {
         let c = want.unwrap_or_else(|| match self.rng.below(100) {
             0..=64 => Class::Valid,
@@ -889,7 +931,7 @@ impl<'a> Seq<'a> {
             }
             if strict && want.is_none() {
                 want = Some(match r {
-                    H(_) | HOpt(_) | Free | OwnedArr => Class::Valid,
+                    H(_) | HOpt(_) | Free | FreeT(_) | OwnedArr => Class::Valid,
                     _ => Class::Mem,
                 });
             }
@@ -903,6 +945,7 @@ impl<'a> Seq<'a> {
                     }
                 }
                 Free => self.pick_free(want),
+                FreeT(t) => self.pick_free_typed(t, want),
                 OwnedArr => self.pick_array(want),
                 Str(d) => {
                     if want == Some(Class::Null) || (want.is_none() && self.rng.chance(1, 25)) {
@@ -913,6 +956,7 @@ impl<'a> Seq<'a> {
                         let p = match d {
                             "@certs" => self.k.certs.as_ptr(),
                             "@ed25519key" => self.k.key.as_ptr(),
+                            "@signedpath" => self.k.signed_path.as_ptr(),
                             _ => self.k.strs[d].as_ptr(),
                         };
                         (Class::Mem, p as usize)
@@ -973,7 +1017,7 @@ impl<'a> Seq<'a> {
         let mut t = vec![];
         for (i, r) in sp.roles.iter().enumerate() {
             let s = match r {
-                H(_) | HOpt(_) | Free | OwnedArr => self.id(vals[i]).to_string(),
+                H(_) | HOpt(_) | Free | FreeT(_) | OwnedArr => self.id(vals[i]).to_string(),
                 _ => match cls[i] {
                     Class::Null => "0".to_string(),
                     Class::MemLen0 => "1z".to_string(),
@@ -997,7 +1041,7 @@ impl<'a> Seq<'a> {
         let args_s = self.arg_tokens(sp, &vals, &cls);
         self.count(&format!("fn:{name}"));
         for (i, c) in cls.iter().enumerate() {
-            if matches!(sp.roles[i], H(_) | HOpt(_) | Free | OwnedArr) {
+            if matches!(sp.roles[i], H(_) | HOpt(_) | Free | FreeT(_) | OwnedArr) {
                 self.count(&format!("arg:{}", c.s()));
             }
         }
@@ -1008,7 +1052,7 @@ impl<'a> Seq<'a> {
             .iter()
             .enumerate()
             .map(|(i, c)| match sp.roles[i] {
-                H(_) | HOpt(_) | OwnedArr => *c != Class::Valid,
+                H(_) | HOpt(_) | OwnedArr | FreeT(_) => *c != Class::Valid,
                 Free => !matches!(*c, Class::Valid),
                 _ => false,
             })
@@ -1107,11 +1151,12 @@ impl<'a> Seq<'a> {
         let _ = take_events();
         let dbl0 = DOUBLE.load(Relaxed);
         WATCHING.store(true, Relaxed);
-        let (raw, code, msg) = call_and_observe(name, &vals, len0, self.k as *const Consts as usize, new_ctx as usize, opts.thread);
+        let on_thread = opts.thread || ALWAYS_ON_THREAD.iter().any(|(n, _)| *n == name);
+        let (raw, code, msg) = call_and_observe(name, &vals, len0, self.k as *const Consts as usize, new_ctx as usize, on_thread);
         WATCHING.store(false, Relaxed);
         let events = take_events();
         let dbl = DOUBLE.load(Relaxed) - dbl0;
-        if opts.thread {
+        if on_thread {
             self.count("on-other-thread");
         }
 
@@ -1235,6 +1280,9 @@ impl<'a> Seq<'a> {
                 H(_) => c != Class::Valid,
                 HOpt(_) => c != Class::Valid && c != Class::Null,
                 Free | OwnedArr => matches!(c, Class::Freed | Class::Foreign),
+                // a type-specific release function: a live library pointer of another type is
+                // "a handle of the wrong type" and must be refused like a freed or foreign one
+                FreeT(_) => matches!(c, Class::Freed | Class::Foreign | Class::WrongType),
                 Str(_) | Bytes | Out | InfoRef => c == Class::Null || c == Class::MemLen0,
                 _ => false,
             };
@@ -1253,12 +1301,12 @@ impl<'a> Seq<'a> {
                 ));
             }
             // a rejected call releases nothing except handles it documents as consumed
-            if matches!(sp.ret, Ret::Unit | Ret::Int | Ret::Bool) && matches!(sp.roles[i], Free | OwnedArr) && !freed.is_empty() {
+            if matches!(sp.ret, Ret::Unit | Ret::Int | Ret::Bool) && matches!(sp.roles[i], Free | FreeT(_) | OwnedArr) && !freed.is_empty() {
                 self.out.fails.push(("release-on-bad-free".into(), format!("{desc}: freed {freed:?} although the pointer was {}", c.s())));
             }
         } else {
             // R3: releasing a live pointer succeeds and deallocates exactly that pointer once
-            if let Some(i) = sp.roles.iter().position(|r| *r == Free) {
+            if let Some(i) = sp.roles.iter().position(|r| matches!(r, Free | FreeT(_))) {
                 if cls[i] == Class::Valid {
                     self.out.nontrivial.push(format!("{name}:free-live"));
                     let n = events.iter().filter(|a| **a == vals[i]).count();
@@ -1376,9 +1424,9 @@ fn weighted<'a>(rng: &mut Rng) -> &'static str {
 }
 
 /// The fixed witnesses of DESIGN §5 F14 and of the exception list, as forced argument classes.
-fn witnesses() -> Vec<(&'static str, Vec<(&'static str, BTreeMap<usize, Class>)>)> {
+fn witnesses() -> Vec<(String, Vec<(&'static str, BTreeMap<usize, Class>)>)> {
     let f = |pairs: &[(usize, Class)]| pairs.iter().copied().collect::<BTreeMap<_, _>>();
-    vec![
+    let mut w: Vec<(&'static str, Vec<(&'static str, BTreeMap<usize, Class>)>)> = vec![
         ("w-reader-mime-null-count", vec![("c2pa_reader_supported_mime_types", f(&[(0, Class::Null)]))]),
         ("w-builder-mime-null-count", vec![("c2pa_builder_supported_mime_types", f(&[(0, Class::Null)]))]),
         ("w-signer-from-info-null", vec![("c2pa_signer_from_info", f(&[(0, Class::Null)]))]),
@@ -1407,7 +1455,53 @@ fn witnesses() -> Vec<(&'static str, Vec<(&'static str, BTreeMap<usize, Class>)>
             "w-double-free",
             vec![("c2pa_reader_new", f(&[])), ("c2pa_free", f(&[(0, Class::Valid)])), ("c2pa_free", f(&[(0, Class::Freed)])), ("c2pa_reader_json", f(&[(0, Class::Freed)]))],
         ),
-    ]
+    ];
+    let mut out: Vec<(String, Vec<(&'static str, BTreeMap<usize, Class>)>)> = w.drain(..).map(|(n, v)| (n.to_string(), v)).collect();
+    // The Lean witness of Props/C31 §9 (`c2pa_reader_free(builder)`), and the same for every
+    // type-specific release function F (declared for type t) and every other kind of library
+    // pointer u: create one u (the only live pointer), F(u) must be refused and release nothing,
+    // the right release then succeeds, and F(u) on the now dead pointer is refused again.
+    for sp in SPECS {
+        let t = match sp.roles {
+            [FreeT(t)] => *t,
+            _ => continue,
+        };
+        for u in ALL_TYPES {
+            if *u == t {
+                continue;
+            }
+            let mut ops = vec![];
+            for (c, force) in prereq_of(u) {
+                ops.push((c, f(&force)));
+            }
+            ops.push((sp.name, f(&[(0, Class::WrongType)])));
+            ops.push((sp.name, f(&[(0, Class::WrongType)])));
+            out.push((format!("w-typed-free:{}:{u}", sp.name), ops));
+        }
+        // right type: released; second release through the same function is refused
+        let mut ops = vec![];
+        for (c, force) in prereq_of(t) {
+            ops.push((c, f(&force)));
+        }
+        ops.push((sp.name, f(&[(0, Class::Valid)])));
+        ops.push((sp.name, f(&[(0, Class::Freed)])));
+        out.push((format!("w-typed-free:{}:same", sp.name), ops));
+    }
+    out
+}
+
+/// Everything the registry tracks: the eight handle types, strings, byte arrays.
+const ALL_TYPES: &[&str] = &["settings", "contextBuilder", "context", "reader", "builder", "signer", "stream", "resolver", "cstring", "bytes"];
+
+/// Calls that create exactly one live pointer of type `t` (as the last live pointer created).
+fn prereq_of(t: &str) -> Vec<(&'static str, Vec<(usize, Class)>)> {
+    match t {
+        "cstring" => vec![("c2pa_version", vec![])],
+        "bytes" => vec![("c2pa_ed25519_sign", vec![(0, Class::Mem), (2, Class::Mem)])],
+        "signer" => vec![("c2pa_signer_from_info", vec![(0, Class::Mem)])],
+        "builder" => vec![("c2pa_builder_from_json", vec![(0, Class::Mem)])],
+        other => vec![(ctor_of(other), vec![])],
+    }
 }
 
 
@@ -1443,7 +1537,21 @@ fn ctor_of(t: &str) -> &'static str {
     }
 }
 
-fn directed_plan(table: &Table, thorough: bool) -> Vec<Directed> {
+/// Quick tier: a seed-rotated sample of at most ~`QUICK_DIRECTED` directed sequences (every
+/// forked stale-handle preflight costs tens of milliseconds); the thorough tier runs them all.
+const QUICK_DIRECTED: usize = 260;
+
+fn directed_plan(table: &Table, thorough: bool, seed: u64) -> Vec<Directed> {
+    let plan = directed_plan_full(table, thorough);
+    if thorough || plan.len() <= QUICK_DIRECTED {
+        return plan;
+    }
+    let stride = plan.len().div_ceil(QUICK_DIRECTED);
+    let off = (seed as usize) % stride;
+    plan.into_iter().enumerate().filter(|(i, _)| i % stride == off).map(|x| x.1).collect()
+}
+
+fn directed_plan_full(table: &Table, thorough: bool) -> Vec<Directed> {
     let mut plan = vec![];
     for ty in HANDLE_TYPES {
         // consuming calls: every (function, parameter) the table marks `untrack` for this type
@@ -1459,6 +1567,11 @@ fn directed_plan(table: &Table, thorough: bool) -> Vec<Directed> {
         }
         let consumer_names: Vec<&str> = consumers.iter().map(|c| c.0).collect();
         consumers.push(("c2pa_free", 0));
+        // the type-specific release functions of this handle type
+        let typed_frees: Vec<&'static str> = SPECS.iter().filter(|sp| sp.roles == [FreeT(*ty)]).map(|sp| sp.name).collect();
+        for tf in &typed_frees {
+            consumers.push((*tf, 0));
+        }
         // variants of the secondary arguments
         let mut cvariants: Vec<(&'static str, usize, BTreeMap<usize, Class>)> = vec![];
         for (g, cp) in &consumers {
@@ -1482,7 +1595,7 @@ fn directed_plan(table: &Table, thorough: bool) -> Vec<Directed> {
         }
         // validate-only uses: H is the only handle of the call, so it is the last one validated
         let single = |sp: &FnSpec| {
-            let hs: Vec<&Role> = sp.roles.iter().filter(|r| matches!(r, H(_) | HOpt(_) | Free | OwnedArr)).collect();
+            let hs: Vec<&Role> = sp.roles.iter().filter(|r| matches!(r, H(_) | HOpt(_) | Free | FreeT(_) | OwnedArr)).collect();
             hs.len() == 1 && *hs[0] == H(ty) && !consumer_names.contains(&sp.name)
         };
         let uses_any: Vec<&'static str> = SPECS.iter().filter(|sp| single(sp)).map(|sp| sp.name).collect();
@@ -1498,6 +1611,9 @@ fn directed_plan(table: &Table, thorough: bool) -> Vec<Directed> {
         }
         reuses.push(("c2pa_free", 0));
         reuses.push(("cimpl_free", 0));
+        for tf in &typed_frees {
+            reuses.push((*tf, 0));
+        }
         for (ci, (g, cp, f)) in cvariants.iter().enumerate() {
             for (ri, (h, rp)) in reuses.iter().enumerate() {
                 let mut use_sets: Vec<Vec<&'static str>> = vec![];
@@ -1628,12 +1744,12 @@ fn worker(seed: u64, from: usize, to: usize, nwit: usize, len: usize, thorough: 
     let k = consts();
     let table = load_table().expect("table");
     let wit = witnesses();
-    let plan = directed_plan(&table, thorough);
+    let plan = directed_plan(&table, thorough, seed);
     let mut f = std::fs::OpenOptions::new().create(true).append(true).open(file).expect("journal");
     for i in from..to {
         let sseed = seed.wrapping_mul(0x2545_F491_4F6C_DD1D).wrapping_add(i as u64);
         let out = if i < nwit {
-            run_sequence(&k, &table, sseed, i, 0, Some(&wit[i].1), None)
+            run_sequence(&k, &table, sseed, i, 0, Some(&wit[i].1[..]), None)
         } else if i < nwit + plan.len() {
             run_sequence(&k, &table, sseed, i, 0, None, Some(&plan[i - nwit]))
         } else {
@@ -1655,7 +1771,7 @@ fn worker(seed: u64, from: usize, to: usize, nwit: usize, len: usize, thorough: 
 
 fn run(run: &mut Run, rng: &mut Rng) {
     run.rule = "a call in which at least one required pointer parameter received NULL, a freed handle, a handle of the wrong type or a foreign pointer (key = function:parameter:class), plus releases of live handles and calls that reach an unchecked use (ub:…)".into();
-    let (nseq, len) = if run.thorough() { (8000usize, 40usize) } else { (700usize, 30usize) };
+    let (nseq, len) = if run.thorough() { (4000usize, 40usize) } else { (320usize, 30usize) };
 
     // ---- inventory obligation: catalogue vs regenerated table
     let table = load_table();
@@ -1676,7 +1792,13 @@ fn run(run: &mut Run, rng: &mut Rng) {
                             let kind = p["kind"].as_str().unwrap();
                             let compat = match sp.roles[i] {
                                 H(t) | HOpt(t) => kind == "handle" && p["hty"].as_str() == Some(t),
-                                Free => matches!(kind, "handle" | "anyptr" | "opaque" | "bytes"),
+                                Free => kind == "opaque",
+                                FreeT(t) => match kind {
+                                    "handle" => p["hty"].as_str() == Some(t),
+                                    "anyptr" => t == "cstring",
+                                    "bytes" => t == "bytes",
+                                    _ => false,
+                                },
                                 OwnedArr => kind == "ownedArray",
                                 Str(_) | StrOpt => kind == "cstr",
                                 Bytes => kind == "bytes",
@@ -1725,7 +1847,7 @@ fn run(run: &mut Run, rng: &mut Rng) {
     note_init();
     let seed = rng.next();
     let nwit = witnesses().len();
-    let ndir = directed_plan(table.as_ref().unwrap(), run.thorough()).len();
+    let ndir = directed_plan(table.as_ref().unwrap(), run.thorough(), seed).len();
     let thorough = run.thorough();
     let total = nseq + nwit + ndir;
     let mut from = 0usize;
